@@ -4,7 +4,7 @@
 (* combination of identifier, serde(rename), rename_all rule and attribute spelling. Each state     *)
 (* prints the JSON keys layer P requires for both fields.                                           *)
 EXTENDS SerdeAttrs, TLC, Json
-CONSTANTS Idents, Renames, RuleSet, Spellings, EnumRules
+CONSTANTS Idents, Renames, RuleSet, Spellings, EnumRules, EnumFieldRules
 VARIABLES c
 
 \* identifiers as character sequences; raw = written r#ident in Rust
@@ -35,13 +35,14 @@ RenameOf(n) == CASE n = "none" -> None
                  [] n = "parentId" -> <<"p","a","r","e","n","t","I","d">>
 
 Init == c \in [kind : {"struct", "variant"}, ident : Idents, rename : Renames, rule : RuleSet,
-               enum_rule : EnumRules, spelling : Spellings]
+               enum_rule : EnumRules, spelling : Spellings, enum_fields_rule : EnumFieldRules]
 Next == UNCHANGED c
 
 RECURSIVE Str(_)
 Str(s) == IF s = <<>> THEN "" ELSE s[1] \o Str(Tail(s))
 
-Container == [kind |-> c.kind, rename_all |-> c.rule, variant_rename_all |-> c.rule]
+\* enum_fields_rule: the enum carries serde(rename_all_fields = ..): the rule of the fields of struct variants WITHOUT their own rename_all
+Container == [kind |-> c.kind, rename_all |-> c.rule, variant_rename_all |-> c.rule, enum_rename_all_fields |-> c.enum_fields_rule]
 Neighbour == <<"p","l","a","i","n","_","o","n","e">>
 \* every case is generated under each configuration; the JSON key never depends on it. go_acronyms: the file-only Go option
 \* uppercase_acronyms = ["ID", "URL", "API"], which re-spells Go IDENTIFIERS (UserID) - not the json tag
@@ -50,8 +51,10 @@ Configs == {"default", "prefix", "go_acronyms"}
 \* typeshare re-splits such a field where serde leaves it alone: that defect is listed under C16 (known_findings.jsonl, pinned by
 \* snapshots) and is judged there; every other rule x upper-case identifier combination is judged here.
 SnakeFamily == {"snake_case", "SCREAMING_SNAKE_CASE", "kebab-case", "SCREAMING-KEBAB-CASE"}
-DeferredToC16 == c.rename = "none" /\ c.rule \in SnakeFamily /\ \E k \in DOMAIN IdentOf(c.ident).s : IsUpper(IdentOf(c.ident).s[k])
-Emit == ((c.kind = "struct" => c.enum_rule = "none") /\ ~DeferredToC16) =>
+EffRule == RuleForField(Container)
+DeferredToC16 == c.rename = "none" /\ EffRule \in SnakeFamily /\ \E k \in DOMAIN IdentOf(c.ident).s : IsUpper(IdentOf(c.ident).s[k])
+FieldsRuleScope == c.enum_fields_rule # "none" => (c.kind = "variant" /\ c.enum_rule = "none" /\ c.spelling = "merged")
+Emit == ((c.kind = "struct" => c.enum_rule = "none") /\ FieldsRuleScope /\ ~DeferredToC16) =>
     PrintT(<<"REPLAY", ToJson([case |-> c, configs |-> Configs,
         keys |-> << Str(FieldWire(IdentOf(c.ident).s, RenameOf(c.rename), RuleForField(Container))),
                     Str(FieldWire(Neighbour, None, RuleForField(Container))) >>])>>)
